@@ -126,7 +126,7 @@ static void body(const struct dcfg *c, int tier)
   snprintf(script, sizeof script, d_scripts[c->script], c->size, c->size);
   memset(&vk_cfg, 0, sizeof vk_cfg);
   vk_cfg.sched_on = 1;
-  vk_cfg.sched_bound = tier ? (c->size <= 1 ? 3 : 2) : (c->size <= 1 && c->sm == SM_REC && !c->deadline ? 2 : 1);
+  vk_cfg.sched_bound = c->size <= 1 && c->sm == SM_REC && (tier ? c->deadline <= 2 : !c->deadline) ? 2 : 1;
   if (c->size > CAP) vk_cfg.sched_bound = 1;
   vk_cfg.total_bound = 2;
   vk_cfg.vlimit = 24;
